@@ -9,7 +9,7 @@ from sa import pm, slots, tm
 from sa.core import Ctx
 from sa.sm import call_kw, const_str, dotted, find_calls, fstring_skeleton, norm
 
-from . import printers
+from . import printers, util
 from .c04 import counts, index_templates, slot_families
 
 
@@ -90,7 +90,6 @@ def bool_rewrites(ctx: Ctx, b2i):
     or None when its value is not understood."""
     from sa import av
 
-    from . import util
 
     v = util.value_of(ctx, b2i)
     if av.has_unk(v):
@@ -182,8 +181,20 @@ def run(ctx: Ctx):
         ctx.check(v.get("ok", False), "R02.a", key, f"{r} (vetted)", f"C printer: {name} falls through to the inherited {r}: {v.get('why', 'not value-preserving')}", "")
     printers.check_no_unvetted_override(ctx, "R02.a", "c")
     fl = M.method("c", "_print_Float")
-    okfl = fl is not None and any(isinstance(n, ast.Return) and norm(n.value) in ("self._print(str(float(flt)))", "self._print(repr(float(flt)))") for n in ast.walk(fl.node))
-    ctx.check(okfl, "R02.a", "c-printer::Float::repr", "Float -> shortest round-trip repr", "C printer: a Float is not printed as str(float(value))", fl.where() if fl else "")
+    if fl is None:
+        ctx.fail("R02.a", "c-printer::Float::repr", "C printer has no _print_Float of its own (sympy prints 15 significant digits)", "")
+    else:
+        ft = util.text_of(ctx, fl)
+        if ft is None:
+            from sa import av as _avfl
+            fv_ = util.value_of(ctx, fl)
+            inner_ = fv_[3][0] if fv_[0] == "mcall" and fv_[2] == "_print" and fv_[3] else fv_
+            ft = _avfl.flatten(inner_).replace(_avfl.HO, "{").replace(_avfl.HC, "}") if _avfl._is_str(inner_) and not _avfl.has_unk(inner_) else None
+        p0 = fl.params[1] if len(fl.params) > 1 else "flt"
+        if ft is None:
+            ctx.undecided("R02.a", "c-printer::Float::repr", "what _print_Float returns is not understood", fl.where())
+        else:
+            ctx.check(ft in ("{float(" + p0 + ")}", "{repr(float(" + p0 + "))}"), "R02.a", "c-printer::Float::repr", "Float -> shortest round-trip repr", f"C printer: a Float is printed as `{ft}`, not as str(float(value)) (digits would be lost or added)", fl.where())
     init = M.method("c", "__init__")
     okc = init is not None and any(isinstance(n, ast.Assign) and norm(n.targets[0]).replace('"', "'") == "self._settings['contract']" and norm(n.value) == "False" for n in ast.walk(init.node))
     ctx.check(okc, "R02.a", "c-printer::settings::contract", "contract=False (indexed assignments are plain statements)", "GotranCCodePrinter no longer sets contract=False: sympy would wrap indexed assignments in loops", init.where() if init else "")
@@ -202,8 +213,7 @@ def run(ctx: Ctx):
             ctx.undecided("R02.b", "c-printer::Mod::double-fmod", f"what _print_Mod returns is not understood ({_av2.show(mv)[:100]})", md.where())
         else:
             flat = _av2.flatten(mv).replace(_av2.HO, "{").replace(_av2.HC, "}")
-            ops = r"<self\._print\(\$(\d+)\) for \$\1 in expr\.args>"
-            A_, B_ = r"\{" + ops + r"\[0\]\}", r"\{<self\._print\(\$\d+\) for \$\d+ in expr\.args>\[1\]\}"
+            A_, B_ = r"\{self\._print\(expr\.args\[0\]\)\}", r"\{self\._print\(expr\.args\[1\]\)\}"
             okm = re.fullmatch(r"fmod\(fmod\(" + A_ + ", " + B_ + r"\) \+ \(" + B_ + r"\), " + B_ + r"\)", flat) is not None
             ctx.check(okm, "R02.b", "c-printer::Mod::double-fmod", "fmod(fmod(a, b) + (b), b)", f"C printer: Mod is printed as {flat}; it must be fmod(fmod(a, b) + (b), b) of the printed operands so that the result has the sign of the divisor for every sign combination", md.where())
     pw = M.method("c", "_print_Piecewise")
@@ -240,7 +250,6 @@ def run(ctx: Ctx):
     ctx.rule("R02.d", "C templates and interface: index chains end in -1 and carry their own family name, counts are the family sizes, the method template emits unpacking before the body, includes math.h / string.h, locals are `const double`", floor=30)
     index_templates(ctx, "R02.d")
     counts(ctx, "R02.d")
-    from . import util
     from sa import av as _av
 
     sk = util.skeleton(ctx, "R02.d", "templates/c.py", "method")
@@ -252,8 +261,11 @@ def run(ctx: Ctx):
     vp = gen.class_assigns().get("variable_prefix")
     ctx.check(vp is not None and const_str(vp) == "const double ", "R02.d", "src/gotranx/codegen/c.py::CCodeGenerator::variable_prefix", "locals are `const double`", f"CCodeGenerator.variable_prefix is {norm(vp) if vp is not None else None}", gen.where())
     imp = gen.methods["imports"]
-    txt = " ".join(pm.fragments(imp))
-    ctx.check("#include <math.h>" in txt and "#include <string.h>" in txt, "R02.d", imp.key(), "math.h and string.h are included", "CCodeGenerator.imports no longer includes math.h and string.h", imp.where())
+    it_ = util.text_of(ctx, imp)
+    if it_ is None:
+        ctx.undecided("R02.d", imp.key(), "what CCodeGenerator.imports returns is not understood", imp.where())
+    else:
+        ctx.check("#include <math.h>" in it_ and "#include <string.h>" in it_, "R02.d", imp.key(), "math.h and string.h are included", f"CCodeGenerator.imports returns `{it_[:80]}`: math.h and string.h are no longer both included", imp.where())
     from .c04 import func_tuple
 
     for m in ("_rhs_arguments", "_scheme_arguments"):
